@@ -24,8 +24,8 @@
 EXTENDS Integers, Sequences, FiniteSets, TLC, Json
 
 CONSTANTS NX, NY
-VARIABLES n, walls, stage
-vars == <<n, walls, stage>>
+VARIABLES n, walls, stage, ex
+vars == <<n, walls, stage, ex>>
 
 Rooms == 1..(NX * NY)
 RoomAt(i, j) == (j - 1) * NX + i
@@ -70,7 +70,6 @@ Min(S) == CHOOSE x \in S : \A y \in S : x <= y
 RegionSeq(W) == LET RECURSIVE F(_) F(S) == IF S = {} THEN <<>> ELSE
                       LET R == CHOOSE X \in S : \A Y \in S : Min(X) <= Min(Y) IN <<R>> \o F(S \ {R})
                 IN F(Regions(W))
-Rank(W, r) == LET sq == RegionSeq(W) IN CHOOSE k \in DOMAIN sq : r \in sq[k]
 
 (* walls hang together: every segment is reachable from the outer wall through shared lattice points *)
 RECURSIVE Grow(_, _, _)
@@ -100,22 +99,30 @@ Valid(W) == /\ \A p \in Points : Deg(W, p) \in {0, 2, 3}
             /\ NoGap(W)
 
 (* the truth of the statement, computed on the layout; regions are named by rank *)
-RankPair(W, s) == {Rank(W, SidesOf(s)[1]), Rank(W, SidesOf(s)[2])}
+RankIn(sq, r) == CHOOSE k \in DOMAIN sq : r \in sq[k]
 Expect(W) ==
-  [ncells   |-> Cardinality(Regions(W)),
-   rooms    |-> [r \in Rooms |-> Rank(W, r)],
-   border   |-> {Rank(W, r) : r \in {q \in Rooms : ColOf(q) \in {1, NX} \/ RowOf(q) \in {1, NY}}},
-   adj      |-> {RankPair(W, s) : s \in W},
-   internal |-> {RankPair(W, s) : s \in {t \in W : \E p \in LineEnds(W, LineOf(W, t)) : ~OnOuter(p)}},
-   njunction |-> Cardinality({p \in Points : Deg(W, p) = 3})]
+  LET sq    == RegionSeq(W)
+      rk    == [r \in Rooms |-> RankIn(sq, r)]
+      rkseq == [r \in 1..(NX * NY) |-> rk[r]]
+      pair(s) == {rk[SidesOf(s)[1]], rk[SidesOf(s)[2]]}
+      deg3  == {p \in Points : Deg(W, p) = 3}
+      \* interior walls whose boundary line has an end at a junction off the outer wall
+      inner == {t \in W : \E p \in LineEnds(W, LineOf(W, t)) : ~OnOuter(p)}
+  IN
+  [ncells   |-> Len(sq),
+   rooms    |-> rkseq,
+   border   |-> {rk[r] : r \in {q \in Rooms : ColOf(q) \in {1, NX} \/ RowOf(q) \in {1, NY}}},
+   adj      |-> {pair(s) : s \in W},
+   internal |-> {pair(s) : s \in inner},
+   njunction |-> Cardinality(deg3)]
 
-Init == n = 1 /\ walls = {} /\ stage = "pick"
+Init == n = 1 /\ walls = {} /\ stage = "pick" /\ ex = [ncells |-> 0]
 Pick == /\ stage = "pick" /\ n <= Len(InnerSeq)
         /\ \/ walls' = walls \cup {InnerSeq[n]}
            \/ walls' = walls
-        /\ n' = n + 1 /\ UNCHANGED stage
+        /\ n' = n + 1 /\ UNCHANGED <<stage, ex>>
 Close == /\ stage = "pick" /\ n = Len(InnerSeq) + 1 /\ Valid(walls)
-         /\ stage' = "leaf" /\ UNCHANGED <<n, walls>>
+         /\ stage' = "leaf" /\ ex' = Expect(walls) /\ UNCHANGED <<n, walls>>
 Next == Pick \/ Close
 Spec == Init /\ [][Next]_vars
 
@@ -126,13 +133,13 @@ Leaf == stage = "leaf"
 LinesOf(W) == {LineOf(W, s) : s \in All(W)}
 EulerOK == Leaf => Cardinality({p \in Points : Deg(walls, p) = 3}) - Cardinality(LinesOf(walls))
                      + Cardinality(Regions(walls)) + 1 = 2
-InternalSubAdj == Leaf => Expect(walls).internal \subseteq Expect(walls).adj
+InternalSubAdj == Leaf => ex.internal \subseteq ex.adj
 \* a pair is internal iff some common line has an end off the outer wall; with only outer ends it is external
-AllBorderWhenNoInterior == Leaf => (Expect(walls).border = 1..Expect(walls).ncells
+AllBorderWhenNoInterior == Leaf => (ex.border = 1..ex.ncells
                                       \/ \E r \in Rooms : ColOf(r) \notin {1, NX} /\ RowOf(r) \notin {1, NY})
 
 HW(W) == [j \in 1..(NY - 1) |-> [i \in 1..NX |-> <<0, i, j>> \in W]]
 VW(W) == [j \in 1..NY |-> [i \in 1..(NX - 1) |-> <<1, i, j>> \in W]]
 Emit == Leaf => PrintT("EJ " \o ToJson([nx |-> NX, ny |-> NY, hwalls |-> HW(walls), vwalls |-> VW(walls),
-                                        expect |-> Expect(walls)]))
+                                        expect |-> ex]))
 =============================================================================
